@@ -167,7 +167,7 @@ def _make_secret(rng, cls, variant=None):
     if cls == "hex":
         return "".join(rng.choice("0123456789abcdefABCDEF") for _ in range(rng.choice([5, 7, 8, 12, 31])))
     if cls == "type7":
-        plain = "".join(rng.choice(string.ascii_letters + string.digits) for _ in range(rng.choice([2, 4, 8, 11])))
+        plain = "".join(rng.choice(string.ascii_letters + string.digits) for _ in range(rng.choice([2, 4, 8, 11, 26, 40, 63])))
         return type7_encode(plain, rng.randrange(16) if variant is None else variant)
     if cls == "md5":
         n = rng.choice([1, 2, 4, 8]) if variant is None else variant
@@ -175,7 +175,7 @@ def _make_secret(rng, cls, variant=None):
     if cls == "sha512":
         return "$6$" + "".join(rng.choice(MD5CHARS) for _ in range(rng.choice([4, 8, 16]))) + "$" + "".join(rng.choice(MD5CHARS) for _ in range(86))
     if cls == "juniper":
-        plain = "".join(rng.choice(string.ascii_letters + string.digits + "!#%") for _ in range(rng.choice([1, 5, 8, 12])))
+        plain = "".join(rng.choice(string.ascii_letters + string.digits + "!#%") for _ in range(rng.choice([1, 5, 8, 12, 30, 64])))
         return ref_encrypt9(plain, rng.choice(ALPHA9) if variant is None else variant)
     raise ValueError(cls)
 
